@@ -183,6 +183,7 @@ def real_dumps(run, stage, sources, max_n, stride=1):
                 raise Inconclusive("generator failed in " + stage)
     dumps = os.path.join(run.scratch, stage.replace(":", "_") + ".ndjson")
     s = run.vh(["mkdumps", "--out", dumps, "--max", str(max_n), "--stride", str(stride)], stage + ":dumps", input_path=cases)
+    run.traces -= s.get("judged", 0)   # counted when TLC has validated them
     n = (s.get("extra") or {}).get("dumps", 0)
     if n == 0:
         raise Inconclusive("no dumps produced in " + stage)
@@ -439,6 +440,26 @@ def c08(run):
     run.exhaustive = False
 
 
+# ------------------------------------------------------------------------------------------------ C14
+def c14(run):
+    import os
+    run.rule = ("(i) CORPUS: 141 recorded version 1.1 files under /verif/corpus — 21 dumps written by the pinned build for sources covering every opcode the compiler emits, every "
+                "error class, 2- and 3-byte sizes, and 120 files assembled by the specification's EncodeProg covering NOP, LOOP and negative-int / bool / nil constants — each with the "
+                "outcome recorded from the pinned build and re-derived by BclVM; the build under test must load and execute each to the recorded output, blocks, binding, warnings and "
+                "error class, and must still write the recorded bytes for the recorded sources. (ii) ISA: TLC enumerates every instruction sequence of <= N instructions (N=3 quick, 4 "
+                "thorough) over 57 instruction forms of all 31 opcodes that is well-formed along every path, assembles it with EncodeProg and computes the outcome with BclVM; the real "
+                "LoadProg + Execute must agree. (iii) LAYOUT: real dumps of generated programs are decoded by the specification's independent decoder and must re-encode byte-identically "
+                "(magic, version, name, code, typed constants, positions, line table, canonical varints, nothing trailing). MC: the format functions (shared with C09). "
+                "Non-trivial = every file / sequence of >= 2 instructions / every dump.")
+    mc_format(run)
+    run.vh(["corpus-check", "--dir", os.path.join(vlib.VERIF, "corpus")], "C14:corpus")
+    c = cfg(constants=dict(StackSize=1024, BlockStackSize=16, MaxInstr=3 if run.quick else 4), invariants=("Emit",))
+    run.gen_replay("Gen_ISA", c, ["replay-isa"], "C14:isa")
+    dumps, n = real_dumps(run, "C14:real", dump_sources(run)[:3], 1500 if run.quick else 12000, stride=11 if run.quick else 3)
+    tlc_on_dumps(run, "C14:layout", dumps, n, ("RoundTrip",))
+    run.exhaustive = False
+
+
 # ------------------------------------------------------------------------------------------------ C16
 def c16(run):
     run.rule = ("GEN: bind cases (descriptor x block) with the specification's flag 'sens' = two or more failing entries or keys colliding on one field "
@@ -501,6 +522,7 @@ CHECKS = {
     "C11": (c11, "model_checking"),
     "C12": (c12, "model_checking"),
     "C13": (c13, "model_checking"),
+    "C14": (c14, "model_checking"),
     "C18": (c18, "model_checking"),
     "C19": (c19, "model_checking"),
     "C20": (c20, "model_checking"),
